@@ -179,11 +179,11 @@ CtorFromStrA ==
     /\ \E k \in Kinds, t \in StartTexts : \E c \in CapsFor(k, BLen(t)) :
           Start([name |-> "from_str", kind |-> k, cap |-> c, t |-> t])
 
-\* alloc_fmt / alloc_fmt_mut for boxes (mut selects the _mut entry point), write! into a new string otherwise
+\* (try_)alloc_fmt / (try_)alloc_fmt_mut for boxes (mut selects the _mut entry point), write! into a new string otherwise
 CtorFmtA ==
     /\ "fmt" \in CtorNames
-    /\ \E k \in Kinds, f \in Fmts, m \in BOOLEAN : \E c \in CapsFor(k, 0) :
-          Start([name |-> "fmt", kind |-> k, cap |-> c, lit |-> f.lit, ps |-> f.ps, mut |-> m])
+    /\ \E k \in Kinds, f \in Fmts, m \in BOOLEAN, a \in Apis : \E c \in CapsFor(k, 0) :
+          Start([name |-> "fmt", kind |-> k, cap |-> c, api |-> a, lit |-> f.lit, ps |-> f.ps, mut |-> m])
 
 CtorFromUtf8A ==
     /\ "from_utf8" \in CtorNames
